@@ -108,6 +108,9 @@ type gen struct {
 	desc     []string
 	unmarked int
 	realCols []string
+	forceK   int // genParts: when > 0, every part is of this form (and forceN of them)
+	forceN   int
+	midHook  func() // runChainOn: called between the chain methods and the finisher
 }
 
 func newGen(r *core.Rand) *gen {
